@@ -164,7 +164,7 @@ Example plus_quoted_sample :
   option_map r_mailbox (new_recipient no_ip Full ([34;74;111;101;46;81;34] ++ 43 :: [120] ++ 64 :: [69;120;46;99;111;109])) = Some [106;111;101;46;113;64;101;120;46;99;111;109].
 Proof. vm_compute. split; reflexivity. Qed.
 
-(** NOT PROVED (kept visible; listed in lib/props/c04.py NOT_PROVED): the same for every l, e, d whatsoever. It needs
+(** The same for every l, e, d whatsoever (proved in Proofs/AddrPlusAny.v, theorem plus_insensitive_any). It needs
     the alphabet assumption on net.ParseIP (with an arbitrary parse_ip, u@[1@2] against u@[1+e@2] is a counterexample);
     the correspondence oracle checks it on every generated pair, including at signs and quotes in l and e. *)
 Definition plus_insensitive_any_stmt : Prop :=
